@@ -104,6 +104,26 @@ def run(chk):
         if not (px and px["k"] == "binop" and px["op"] == "=" and "stack_offset" in ifd.text(px["lhs"]) and "." not in ifd.text(px["lhs"]) and "->" not in ifd.text(px["lhs"])):
             continue            # the total size of the argument area, not an argument's offset
         kx = ifd.e(ifd.strip(x["args"][1]))
+        if kx is not None and not isinstance(kx.get("cv"), int):
+            # a computed alignment: it has to be computed from the argument (its size / type), a per-convention constant such as the
+            # minimum slot size says nothing about the argument's natural alignment
+            derived = set()
+            for _ in range(4):
+                for di, dx in ifd.ex.items():
+                    if dx["k"] == "decl":
+                        for v in dx["vars"]:
+                            if v.get("init") is not None and any(
+                                    ((ifd.e(j) or {}).get("k") in ("call", "mcall") and (ifd.e(j) or {}).get("cn") in ("size_of", "alignment_of", "size")) or
+                                    ((ifd.e(j) or {}).get("k") == "ref" and (ifd.e(j) or {}).get("did") in derived) for j in ifd.walk(v["init"])):
+                                derived.add(v["did"])
+            from_arg = any(((ifd.e(j) or {}).get("k") == "ref" and (ifd.e(j) or {}).get("did") in derived) or
+                           ((ifd.e(j) or {}).get("k") in ("call", "mcall") and (ifd.e(j) or {}).get("cn") in ("size_of", "alignment_of")) for j in ifd.walk(x["args"][1]))
+            nal += 1
+            chk.ob(R3, "a64|align_up(stack_offset, %s)#%d" % (" ".join(ifd.text(x["args"][1]).split())[:24], nal), from_arg, loc=ifd.loc(i),
+                   detail="the stack offset of an argument is aligned to `%s`, which is not computed from the argument's size: an 8- or 16-byte "
+                          "argument is then placed at a 4-byte boundary where the convention's slot size is 4 (Apple arm64)" %
+                          " ".join(ifd.text(x["args"][1]).split())[:40], key="stackalign|a64|computed#%d" % nal)
+            continue
         if kx is None or not isinstance(kx.get("cv"), int) or i not in pos:
             continue
         K = kx["cv"]
@@ -126,7 +146,7 @@ def run(chk):
         nal += 1
         chk.ob(R3, "a64|align_up(stack_offset, %d)#%d" % (K, nal), ok, loc=ifd.loc(i),
                detail="stack arguments of exactly %d bytes must be aligned to %d: %s" % (K, K, why), key="stackalign|a64|%d#%d" % (K, nal))
-    chk.floor(R3 + ":sites", nal, 2)
+    chk.floor(R3 + ":sites", nal, 1)
 
     # ---------------------------------------------------------------- C06.d argument moves: which conversions sign-extend
     R4 = "R-SIGN-EXTEND-PAIRS"
@@ -148,6 +168,8 @@ def run(chk):
 
     from lib import vecbysize, subscript as _sub, cfg as _cfg
     vecbysize.run(chk)
+    from lib import swapwidth
+    swapwidth.run(chk)
     fns_o = []
     for unit_, pat_ in (("asmjit/x86/x86func.cpp", r"asmjit::x86::FuncInternal::[a-z_0-9]+$"), ("asmjit/arm/a64func.cpp", r"asmjit::a64::FuncInternal::[a-z_0-9]+$")):
         fns_o += [g for g in _cfg.load_functions(chk.facts(unit_, funcs=pat_)) if g.file.endswith(unit_.split("/")[-1])]
